@@ -4,11 +4,11 @@
 # (extract/Extract_cq.v); random_bit() of zip_buffer and the stride offset of zip_buffer_with_stride are routed through
 # the DATASKETCHES_VERIF hook and replayed by the model.
 #
-# Mutations confirmed caught (scratch worktree, VERIF_REPO): see the list at the end of this file.
+# Mutations confirmed caught / harmless rewrites confirmed tolerated (scratch worktree, VERIF_REPO): list at the end of this file.
 import struct
 
-READY_C07 = False
-READY_C08 = False
+READY_C07 = True
+READY_C08 = True
 COQ_PROPS_C07 = ['Properties_C07_cq']
 COQ_PROPS_C08 = ['Properties_C08_cq']
 
@@ -642,3 +642,42 @@ def oracle_c08(case, irecs, mrecs):
 
 FAMILIES_C07 = [dict(name='cq', harness='drv_cq.cpp', extract='Extract_cq.v', model='model_cq', gen=gen_c07, oracle=oracle_c07)]
 FAMILIES_C08 = [dict(name='cq', harness='drv_cq.cpp', extract='Extract_cq.v', model='model_cq', gen=gen_c08, oracle=oracle_c08)]
+
+# what is proved / compared / not claimed for this family (for the maintainer's MANIFEST texts)
+MANIFEST_C07 = dict(
+    proved=('for every state reachable by updates, merges (all merge cases, equal and different k) and interleaved queries under every outcome of the random choices '
+            '(Properties_C07_cq, 28 theorems): sum of weights = n (base buffer 1, level i 2^(i+1)); n = #accepted; exact min/max; k stays a power of two in [2, 2^15], '
+            'bit_pattern = n / 2k, |base buffer| = n mod 2k; level i = k sorted items iff bit i set, else empty; #levels = bitlen(bit_pattern); retained = compute_retained_items(k, n); '
+            'retained sub-multiset of the inputs; the iterator AS CODED = base buffer (weight 1) ++ levels (weight 2^(i+1)); sorted view ordered with total n; rank monotone, '
+            'inclusive >= exclusive, within [0, n], = weighted count; quantile monotone, inclusive <= exclusive, a retained item, answered when non-empty; CDF = ranks ++ [n] non-decreasing; '
+            'PMF >= 0 summing to one; empty sketch / bad rank / bad or NaN split points refused, NaN update ignored; exact ranks and quantiles while n < 2k; check_k <-> power of two in range'),
+    compared='n, k, num_retained, min, max, estimation flag, the full iterator listing (sorted), rank numerators, quantiles, CDF numerators, sorted-view listing after every history; PMF/CDF doubles by the oracle',
+    not_claimed='serialization, the type-converting constructor, overflow of n / bit_pattern beyond 2^64, non-integer items')
+MANIFEST_C08 = dict(
+    proved=('Properties_C08_cq (11 theorems): halve pair lemma and stride lemma for every predicate and every run; per update and per merge (all cases) the weighted count of retained items '
+            'satisfying p is a martingale; for every history tree (updates, merges with any mix of k, queries) the exact expectation of the rank numerator get_rank computes equals the true '
+            'rank (stated over Q with Ex = average over every draw); number and arities of the draws are the same on all branches, also across different item values'),
+    compared='exhaustive outcome enumeration on the implementation for short histories: sum over all outcomes = outcomes * true rank, draws made = draws scripted',
+    not_claimed=('merge DAGs in which the same sketch object is merged more than once are covered by the invariants (C07) and by enumeration runs only, not by the expectation theorem '
+                 '(the theorem is for merge trees); the published-error clause is statistical and not claimed'))
+
+# ---------------------------------------------------------------------------------------------------------------------
+# Mutation log (scratch worktree /tmp/wt_cq, VERIF_REPO=/tmp/wt_cq; quantiles/include/quantiles_sketch_impl.hpp), quick tier, seed 1.
+# Breaking mutations, each reported as VIOLATION (C07 / C08):
+#   M1  zip_buffer ignores the coin (always offset 0)                                   C07 (correspondence) + C08 (cq_rank_biased)
+#   M3  in_place_propagate_carry: bit_pattern | (1 << lvl) instead of + (no ripple)      C07 + C08
+#   M4  downsampling_merge propagates at src_lvl instead of src_lvl + lg_sample_factor   C07 + C08
+#   M5  const_iterator begin(): weight_ = 1 for the first level (empty base buffer)      C07 (cq_iterator_weights)
+#   M9  standard/downsampling_merge: comparator arguments swapped in the min update      C07 (cq_minmax)
+#   M10 get_sorted_view: weight doubled only for non-empty levels                        C07 (rank / view total) + C08
+#   M11 zip_buffer_with_stride ignores the offset (always 0)                             C07 (correspondence) + C08 (cq_rank_biased)
+#   M14 update() no longer clears is_base_buffer_sorted_                                 C07 + C08 (binary search on an unsorted buffer)
+#   M15 update() no longer resets the cached sorted view                                 C07 (stale answers after interleaved queries)
+#   M16 const_iterator operator++ shifts bit_pattern also when entering level 0          C07 (iterator listing)
+#   M18 get_quantile refuses rank == 1.0                                                 C07 (cq_quantile_refused)
+#   M19 merge(): exact target into estimating source takes the update path for k_ >= other.k (should be <=)   C07
+# Harmless rewrites, not reported (exit 0 for C07 and C08):
+#   H1  merge_two_size_k_buffers takes ties from the other side
+#   H2  merge(): k_ <= other.k -> k_ < other.k in the exact-target branch (downsampling_merge with factor 1 does the same)
+#   H3  update(): ++n_ before push_back; scratch buffers declared as std::vector<T, A>
+#   H4  std::stable_sort in process_full_base_buffer; is_base_buffer_sorted_ = true dropped there (the buffer is empty)
